@@ -55,6 +55,14 @@ type unsafePtr struct {
 	v value
 }
 
+// symFloat is a floating-point value the engine does not compute (the
+// numeric result of parsing a symbolic decimal string).  Any arithmetic or
+// comparison on it aborts the path as inconclusive.
+type symFloat struct{}
+
+// fallThrough is returned by an intrinsic that declines: the SSA body runs.
+type fallThrough struct{}
+
 // poison marks values the engine could not compute (skipped initialisers).
 type poison struct{ why string }
 
